@@ -21,7 +21,7 @@ RULE = ("(constants include ranges whose limits are 0) "
         "random histories (<= 25 steps, thorough <= 80) over the eight request types with id lists mixing known, unknown and "
         "repeated ids in every integer format that holds them plus text ids, ECVs in range / at min / at max / +-1 outside / in "
         "another numeric format, alarm set/clear and SV/EC value updates; distinct by request sequence; non-trivial when "
-        "at least three different request types were answered")
+        "at least three different request types were answered; plus: one alarm taken through 6-12 enable / disable / set / clear steps; a callback constant whose value lives in a store of the equipment, the predefined constants 1 and 2 (establish-communications time-out given as settings option 10/30/45, time format), constants observed through S2F13 snapshots; the clock SV format follows constant 2")
 ASSUMPTIONS = ["for an unknown alarm id in S5F5 any single reply is accepted", "ALED values other than 0/128 are not generated",
                "the clock SV is checked for format only", "an ECV sent in a numeric format different from the constant's own is "
                "either refused without effect or accepted such that the constant stays within bounds and S2F13 still answers"]
